@@ -102,7 +102,7 @@ def _cull(ctx, f, style):
         src_ok = False
         if isinstance(k, ast.Name):
             for nm, val, st in reaching_of(f).reaching(n, k.id):
-                if isinstance(st, ast.For) and unparse(st.iter) == "work":
+                if isinstance(st, ast.For) and eqv(st.iter, "work"):
                     src_ok = True
                 if isinstance(val, ast.Call):
                     cn = call_name(val)
@@ -122,12 +122,12 @@ def _cull(ctx, f, style):
                 ok = Pat("get_dependencies(dsk, M_k, *M_rest)").match(it) is not None
         ctx.ob("REACH.cull.push-deps", f, f"{name}: dependencies of every kept key are visited", ok and bool(find("work = new_work", f)))
         rs = returns(f)
-        ok = len(rs) == 1 and unparse(rs[0].value) == "(out, dependencies)"
+        ok = len(rs) == 1 and eqv(rs[0].value, "(out, dependencies)")
         ctx.ob("REACH.cull.return", f, f"{name}: returns (out, dependencies)", ok)
     else:
         ok = any(call_name(c) in aliases and aliases[call_name(c)] == ("work", "update") and unparse(c.args[0]).endswith(".dependencies") for c in calls(f)) or bool(find("work.update(M_v.dependencies)", f))
         ctx.ob("REACH.cull.push-deps", f, f"{name}: dependencies of every kept key are visited", ok)
-        rs = [r for r in returns(f) if unparse(r.value) == "dsk2"]
+        rs = [r for r in returns(f) if eqv(r.value, "dsk2")]
         ctx.ob("REACH.cull.return", f, f"{name}: returns the culled graph", len(rs) == 1)
 
 
@@ -157,7 +157,7 @@ def _inline_functions(ctx, opt):
             v = resolve(loops[0].iter, loops[0], f)
             if isinstance(v, ast.ListComp) and len(v.generators) == 1:
                 g = v.generators[0]
-                ok = any(isinstance(i, ast.Call) and call_name(i) == "inlinable" and unparse(i.args[0]) == unparse(v.elt) for i in g.ifs) and unparse(g.iter) == "dsk.items()"
+                ok = any(isinstance(i, ast.Call) and call_name(i) == "inlinable" and unparse(i.args[0]) == unparse(v.elt) for i in g.ifs) and eqv(g.iter, "dsk.items()")
         ctx.ob("DOM.protect.inline-functions.deleted-are-inlinable", n, "for k in [k for k, v in dsk.items() if inlinable(k, v)]: del dsk[k]", ok)
     ok = bool(find("output = set(output)", f, nested=False))
     ctx.ob("DOM.protect.inline-functions.output-set", f, "output = set(output)", ok, nontrivial=False)
@@ -190,7 +190,7 @@ def _fuse_linear(ctx, opt):
         pair = [d for d, db in find("del dependencies[M_k]", f, nested=False) if same(db["M_k"], b["M_k"]) and control_equivalent(f, n, d)]
         ctx.ob("PAIR.deps.fuse-linear.alias-delete", n, "del rv[key]; del dependencies[key]", bool(pair))
     # omission: keys not copied are exactly the fused ones; the chain head is re-inserted
-    cp = [l for l in walk_no_nested(f) if isinstance(l, ast.For) and unparse(l.iter) == "dsk.items()"]
+    cp = [l for l in walk_no_nested(f) if isinstance(l, ast.For) and eqv(l.iter, "dsk.items()")]
     ok = False
     for l in cp:
         for n, b in find("rv[M_k] = M_v", l):
@@ -267,7 +267,7 @@ def _fuse(ctx, opt):
                     base = val.value
                     if isinstance(base, ast.Name):
                         for nm2, v2, st2 in reaching_of(f).reaching(st, base.id):
-                            if isinstance(st2, ast.For) and unparse(st2.iter) == "children_info":
+                            if isinstance(st2, ast.For) and eqv(st2.iter, "children_info"):
                                 src = "children_info[i][0]"
         ctx.ob("DOM.protect.fuse.delete-operand", n, f"del rv[{unparse(k)}]: operand is the key of a child entry of the info stack", src is not None, src or "unrecognised provenance of the deleted key")
         pops = [c for c in calls(f, None, nested=False) if (call_name(c) in aliases and aliases[call_name(c)] == ("deps", "pop") or call_name(c) == "deps.pop") and c.args and same(c.args[0], k) and control_equivalent(f, n, c)]
